@@ -32,6 +32,10 @@ def jobs_api(rng, thorough):
 def run(ctx: core.Ctx):
     ctx.lean_stage(extra_props=("C15x", "Tie", "L4Live"))
     b2check.run_b2(ctx, jobs, ["C15"], label="lifecycle scenarios")
+    # exhaustive within a bound: every schedule up to 3 (thorough: 5) deviations from the canonical one, on small scenarios
+    _small = gen.small_scenarios()
+    b2check.run_systematic(ctx, [_small[n] for n in ['link-drop', 'traffic', 'concurrent-close']], ["C15"], depth=5 if ctx.tier == "thorough" else 3,
+                           label="link-drop, traffic, concurrent-close", max_runs=60000 if ctx.tier == "thorough" else 6000)
     b2check.run_b2(ctx, lambda rng, th: [(gen.conn_port_dies(rng), rng.randrange(10 ** 9), rng.choice([0, 3])) for _ in range(4000 if th else 120)],
                    ["C15"], label="transport ends without raising (port reports closed), monitor only", accept=False)
     def jobs_hot(rng, th):
